@@ -64,6 +64,9 @@ pub fn expand_position(
         },
     )?;
 
+    let snapshot_epoch = helpers::get_current_epoch(deps.as_ref())?;
+    helpers::snapshot_global_weight_if_missing(deps.storage, snapshot_epoch)?;
+
     // add the weight to the global weight and the user's weight
     // the weight is not additive on the amount, so add the difference between the weight of the
     // expanded position and the weight of the position before, which is what closing subtracts
